@@ -248,13 +248,21 @@ Definition grid_contents_formatted (x : grid) : res (list token * attrs) :=
   do cur <- cursor_position_formatted x (Some pos) (Some a);
   Ok (t_clear_attrs :: t_clear_screen ++ ts ++ cur, a).
 
+(* after the D10 repair: drawing over a wide character that ends in the last column makes the
+   receiver forget that the row was wrapped, so the next row must not assume the flag *)
+Definition clears_wrap (cols : N) (rw prw : row) : bool :=
+  (2 <=? cols)
+  && (match row_get prw (cols - 2) with Some c => cwide c | None => false end)
+  && negb (match row_get rw (cols - 2) with Some c => has_contents c | None => false end).
+
 Fixpoint rows_diff_loop (cols : N) (vr : list (row * row)) (i : N) (wrapping pwrapping : bool)
          (pos : N * N) (a : attrs) (acc : list token) : res (list token * (N * N) * attrs) :=
   match vr with
   | [] => Ok (acc, pos, a)
   | (rw, prw) :: rest =>
     do '(ts, pos', a') <- row_diff rw prw 0 cols i wrapping pwrapping pos a;
-    rows_diff_loop cols rest (i + 1) (wrapped rw) (wrapped prw) pos' a' (acc ++ ts)
+    rows_diff_loop cols rest (i + 1) (wrapped rw) (wrapped prw && negb (clears_wrap cols rw prw))
+                   pos' a' (acc ++ ts)
   end.
 
 Definition grid_contents_diff (x prev : grid) (pattrs : attrs) : res (list token * attrs) :=
